@@ -1319,12 +1319,14 @@ func (s *Server) handleSelect(ctx context.Context, backend *pgproto3.Backend, pa
 	}
 
 	limit := s.cfg.Query.DefaultLimit
+	limitGiven := false
 	if parsed.Limit != "" {
 		value, err := parseLimit(parsed.Limit)
 		if err != nil {
 			return queryResult{}, err
 		}
 		limit = value
+		limitGiven = true
 	}
 	tailCount := 0
 	if parsed.Tail != "" {
@@ -1334,8 +1336,12 @@ func (s *Server) handleSelect(ctx context.Context, backend *pgproto3.Backend, pa
 		}
 		tailCount = value
 		limit = value
+		limitGiven = true
 	}
-	if limit <= 0 {
+	// An explicit LIMIT 0 / TAIL 0 asks for the result columns and no rows; it
+	// must not be mistaken for "no limit given".
+	noRows := limitGiven && limit == 0
+	if limit <= 0 && !noRows {
 		limit = s.cfg.Query.DefaultLimit
 	}
 	if s.cfg.Query.MaxRows > 0 && limit > s.cfg.Query.MaxRows {
@@ -1384,6 +1390,10 @@ func (s *Server) handleSelect(ctx context.Context, backend *pgproto3.Backend, pa
 	}
 
 	candidates := filterSegments(parsed, segments, timeMin, timeMax)
+	if noRows {
+		// Nothing to scan: only the row description and "SELECT 0" are sent.
+		candidates = nil
+	}
 	if err := s.enforceScanLimits(len(candidates), estimateBytes(candidates)); err != nil {
 		return queryResult{}, err
 	}
@@ -2309,14 +2319,17 @@ func (s *Server) handleJoinSelect(ctx context.Context, backend *pgproto3.Backend
 	windowStart := time.Now().Add(-last)
 
 	limit := s.cfg.Query.DefaultLimit
+	noRows := false
 	if parsed.Limit != "" {
 		value, err := parseLimit(parsed.Limit)
 		if err != nil {
 			return queryResult{}, err
 		}
 		limit = value
+		// An explicit LIMIT 0 asks for the result columns and no rows.
+		noRows = value == 0
 	}
-	if limit <= 0 {
+	if limit <= 0 && !noRows {
 		limit = s.cfg.Query.DefaultLimit
 	}
 	if s.cfg.Query.MaxRows > 0 && limit > s.cfg.Query.MaxRows {
@@ -2339,6 +2352,10 @@ func (s *Server) handleJoinSelect(ctx context.Context, backend *pgproto3.Backend
 	fields := buildRowDescription(cols)
 	if err := s.send(backend, collector, &pgproto3.RowDescription{Fields: fields}); err != nil {
 		return queryResult{}, err
+	}
+	if noRows {
+		_ = s.send(backend, collector, &pgproto3.CommandComplete{CommandTag: commandTag(0)})
+		return queryResult{}, nil
 	}
 
 	lister, err := s.getLister()
